@@ -20,10 +20,27 @@ func TestVerifC12Announcer(t *testing.T) {
 			Accept: func(env *c12.Env, c c12.Case) bool {
 				ctx, cancel := context.WithCancel(context.Background())
 				defer cancel()
-				ch := &c12.Channel{OnDrained: cancel, Inbox: []net.Message{&c12.Msg{
+				// warm-up: the same network key first sends a legitimate announcement for a
+				// seat it really holds (if it holds one other than the receiver's and the
+				// claimed one); whatever the announcer learned from it must not help the
+				// message under test
+				var inbox []net.Message
+				warm := 0
+				for seat := 1; seat <= len(env.Seats); seat++ {
+					if env.Seats[seat-1] == c.Key[0] && seat != c.Self && seat != c.Claimed {
+						warm = seat
+						break
+					}
+				}
+				if warm != 0 {
+					inbox = append(inbox, &c12.Msg{Key: env.KeyBytes(c.Key), T: "announcement",
+						P: &announcementMessage{senderID: group.MemberIndex(warm), protocolID: "proto", sessionID: c12.RightSession}})
+				}
+				inbox = append(inbox, &c12.Msg{
 					Key: env.KeyBytes(c.Key), T: "announcement",
 					P: &announcementMessage{senderID: group.MemberIndex(c.Claimed), protocolID: "proto", sessionID: c12.SessionOf(c)},
-				}}}
+				})
+				ch := &c12.Channel{OnDrained: cancel, Inbox: inbox}
 				ready, err := New("proto", ch, env.Validator).Announce(ctx, group.MemberIndex(c.Self), c12.RightSession)
 				if err != nil {
 					panic(err)
@@ -34,6 +51,8 @@ func TestVerifC12Announcer(t *testing.T) {
 						selfListed = true
 					} else if int(m) == c.Claimed {
 						claimedListed = true
+					} else if int(m) == warm {
+						// the warm-up announcement
 					} else {
 						panic("announcer listed a member nobody announced")
 					}
